@@ -61,10 +61,10 @@ Example c14_partial_example :
 Proof. vm_compute. split; reflexivity. Qed.
 
 (* with at most one architecture the initial set is empty and the resolution
-   is the plain one.  Stated for a FRESH disqualification cache: the cache is
-   keyed by the concatenated index list, not by the grouping (finding C08-F2),
-   so after an earlier call that grouped the same index objects differently the
-   real code can hand back that call's set; the caches belong to C08. *)
+   is the plain one.  (About disqualify_difference itself; that the cache hands
+   every call the difference of its own grouping, whatever was resolved before,
+   is c14_cache_own_grouping - until fix 3541d7b an earlier call that grouped the
+   same index objects differently could leak its set: finding C08-F2.) *)
 Theorem c14_single_arch_unaffected : forall by_arch, List.length by_arch <= 1 ->
   disqualify_difference by_arch = [] /\
   forall a U W, resolve U W (dq_for by_arch a) = resolve U W [].
@@ -256,29 +256,37 @@ Theorem c14_same_world_same_versions_partial : forall archs order repos world a 
 Proof. exact same_versions_partial. Qed.
 Print Assumptions c14_same_world_same_versions_partial.
 
-(* the disqualification cache seen from C14: after ANY history of calls, a call
-   whose key was used before only by the same grouping (the same map, listed in
-   any order) is handed exactly the members a fresh disqualifyDifference computes *)
-Theorem c14_cache_hit_same_grouping : forall hist aa,
-  (forall aa', In aa' hist -> dq_cache_key aa' = dq_cache_key aa -> Permutation aa' aa) ->
+(* the disqualification cache seen from C14 (since fix 3541d7b a node of the trie keeps
+   one entry per grouping; was finding C08-F2): after ANY history of calls, EVERY
+   call is handed exactly the members a fresh disqualifyDifference of its own map
+   computes.  go_map: the listings are Go maps (distinct architectures); coherent:
+   index objects with one identity are one object. *)
+Theorem c14_cache_own_grouping : forall hist aa,
+  go_map aa -> Forall go_map hist -> coherent (aa :: hist) ->
   forall o, In o (snd (dq_cache_get (run_calls hist) aa)) <-> In o (dq_objs aa).
-Proof. exact cache_hit_same_grouping. Qed.
-Print Assumptions c14_cache_hit_same_grouping.
-
-(* REFUTED for another grouping with the same concatenation: this is finding
-   C08-F2 ({x:[i0], y:[i1]} then {x:[i0, i1]}), reachable through the library API *)
-Theorem c14_cache_other_grouping_refuted :
-  exists hist aa,
-    (exists aa', In aa' hist /\ dq_cache_key aa' = dq_cache_key aa /\ ~ Permutation aa' aa) /\
-    exists o, ~ (In o (snd (dq_cache_get (run_calls hist) aa)) <-> In o (dq_objs aa)).
-Proof. exact cache_other_grouping_refuted_lemma. Qed.
-Print Assumptions c14_cache_other_grouping_refuted.
+Proof. exact cache_own_grouping. Qed.
+Print Assumptions c14_cache_own_grouping.
 Example c14_cache_example :
   dq_cache_key F2_multi = [0; 1] /\ dq_cache_key F2_single = [0; 1] /\
+  same_grouping (grouping_of F2_multi) (grouping_of F2_single) = false /\
   dq_objs F2_multi = [(0, 0)] /\ dq_objs F2_single = [] /\
-  snd (dq_cache_get (run_calls [F2_multi]) F2_single) = [(0, 0)] /\
-  snd (dq_cache_get (run_calls [F2_single]) F2_multi) = [].
-Proof. exact cache_other_grouping_values. Qed.
+  snd (dq_cache_get (run_calls [F2_multi]) F2_single) = [] /\
+  snd (dq_cache_get (run_calls [F2_single]) F2_multi) = [(0, 0)] /\
+  snd (dq_cache_get (run_calls [F2_multi; F2_single]) F2_multi) = [(0, 0)] /\
+  List.length (run_calls [F2_multi; [("y", [F2_i1]); ("x", [F2_i0])]]) = 1.
+Proof. exact cache_own_grouping_values. Qed.
+Example c14_cache_own_grouping_hypotheses : go_map F2_single /\ Forall go_map [F2_multi] /\ coherent [F2_single; F2_multi].
+Proof. exact F2_hypotheses. Qed.
+
+(* REFUTED for the lookup by the key alone (the code before the fix; this was finding
+   C08-F2: {x:[i0], y:[i1]} then {x:[i0, i1]}): non-vacuity of the entry per grouping.
+   The real code is replayed on these histories in every run (dqcache corpus). *)
+Theorem c14_cache_keyed_by_concatenation_refuted :
+  exists hist aa,
+    go_map aa /\ Forall go_map hist /\ coherent (aa :: hist) /\
+    exists o, ~ (In o (snd (dq_cache_get_by_key (run_calls_by_key hist) aa)) <-> In o (dq_objs aa)).
+Proof. exact cache_keyed_by_concatenation_refuted. Qed.
+Print Assumptions c14_cache_keyed_by_concatenation_refuted.
 
 (* the message stored with a disqualified package names an architecture that
    lacks it (which one, when several do, follows map iteration) *)
